@@ -809,9 +809,9 @@ def follow_from_notes(d, prop):
     """first lines of the builder's own paragraph about the round this seed belongs to (notes/Cxx.md)"""
     m = re.search(r'-(\d+)$', d)
     rnd = int(m.group(1)) if m else 1
-    if d == 'C35-3':
-        rnd = 4
-    pats = {4: r'round[ -]4', 3: r'round[ -]3|third[ -]round', 2: r'round[ -]2|second[ -]round|follow-up'}.get(rnd, r'follow-up')
+    if prop == 'C35' and rnd >= 3:
+        rnd += 1
+    pats = {5: r'round[ -]5', 4: r'round[ -]4', 3: r'round[ -]3|third[ -]round', 2: r'round[ -]2|second[ -]round|follow-up'}.get(rnd, r'follow-up')
     after = os.path.exists(f'{V}/seeded/{d}/result_after.json')
     tail = ' (re-run: `seeded/%s/result_after.json`)' % d if after else ''
     path = f'{V}/notes/{prop}.md'
